@@ -12,7 +12,7 @@ import os
 import z3
 
 from .vals import *          # noqa: F401,F403
-from .vals import _fresh
+from .vals import _fresh, _mul
 from .contract import Contract, Loop
 
 DROPPED_CALLS = ('logging.debug', 'logging.info', 'logging.warning', 'logging.error',
@@ -449,6 +449,14 @@ class Engine:
             vals = self.unpack(val, len(target.elts))
             for t, v in zip(target.elts, vals):
                 self.store(t, v)
+        elif isinstance(target, ast.Attribute) and isinstance(target.value, ast.Subscript) \
+                and isinstance(self.eval(target.value.value), ArrList):
+            lst = self.eval(target.value.value)
+            idx = self.eval(target.value.slice)
+            if isinstance(idx, int) and idx < 0:
+                idx = zint(lst.length) + idx
+            self.oblige('safety', 'index:' + ast.unparse(target.value)[:50], z3.And(zint(idx) >= 0, zint(idx) < zint(lst.length)))
+            self.store(target.value.value, lst.with_field(idx, target.attr, val))
         elif isinstance(target, ast.Attribute):
             base = self.eval(target.value)
             if hasattr(base, 'setattr'):
@@ -457,7 +465,20 @@ class Engine:
             if not isinstance(base, Obj):
                 raise Unsupported(f'attribute store on {base!r}')
             if base.frozen:
-                raise Unsupported(f'store to {base.cls}.{target.attr} after the object was appended to a list')
+                # the record sits in a list: Python lists hold references, so the store is visible through the list
+                if base.alias is None:
+                    raise Unsupported(f'store to {base.cls}.{target.attr} of a record whose list slot is unknown')
+                holder, key, idx = base.alias
+                lst = holder.f[key] if isinstance(holder, Obj) else holder[key]
+                if not isinstance(lst, ArrList) or target.attr not in lst.fields:
+                    raise Unsupported(f'store to {base.cls}.{target.attr} after append: field not tracked by the list')
+                new = lst.with_field(idx, target.attr, val)
+                if isinstance(holder, Obj):
+                    holder.f[key] = new
+                else:
+                    holder[key] = new
+                base.f[target.attr] = val
+                return
             hook = self.c.models.get(f'setattr:{base.cls}.{target.attr}')
             if hook:
                 hook(self, base, val)
@@ -1274,6 +1295,23 @@ class Engine:
             raise Unsupported(f'string op {txt}')
         if isinstance(a, Opaque) or isinstance(b, Opaque):
             return Opaque('formatted')
+        if isinstance(a, Ratio) or isinstance(b, Ratio) or \
+                (isinstance(op, ast.Div) and not isinstance(a, float) and not isinstance(b, float)
+                 and as_ratio(a) is not None and as_ratio(b) is not None
+                 and not (isinstance(a, int) and isinstance(b, int))):
+            ra, rb = as_ratio(a), as_ratio(b)
+            if ra is not None and rb is not None:
+                sym = {ast.Add: '+', ast.Sub: '-', ast.Mult: '*', ast.Div: '/'}.get(type(op))
+                if sym:
+                    if sym == '/':
+                        self.oblige('safety', 'div:' + txt, zint(rb.num) != 0)
+                    return ratio_op(sym, ra, rb)
+                if isinstance(op, ast.FloorDiv):
+                    self.oblige('safety', 'div:' + txt, zint(rb.num) != 0)
+                    q = ratio_op('/', ra, rb)
+                    return Ratio(q.floor(), 1) if (isinstance(a, Ratio) or isinstance(b, Ratio)) else q.floor()
+            a = a.real() if isinstance(a, Ratio) else a
+            b = b.real() if isinstance(b, Ratio) else b
         pynum = lambda x: isinstance(x, (int, float)) and not isinstance(x, bool)
         if pynum(a) and pynum(b):
             try:
@@ -1399,6 +1437,15 @@ class Engine:
         if isinstance(a, (TD, DT)) and type(a) is type(b):
             a, b = a.us, b.us
         a, b = self.num(a, e), self.num(b, e)
+        if isinstance(a, Ratio) or isinstance(b, Ratio):
+            ra, rb = as_ratio(a), as_ratio(b)
+            if ra is not None and rb is not None and isinstance(ra.den, int) and isinstance(rb.den, int) \
+                    and ra.den > 0 and rb.den > 0:
+                x, y = _mul(ra.num, rb.den), _mul(rb.num, ra.den)
+                a, b = x, y
+            else:
+                a = a.real() if isinstance(a, Ratio) else a
+                b = b.real() if isinstance(b, Ratio) else b
         if isinstance(a, (int, float)) and isinstance(b, (int, float)):
             return {ast.Lt: a < b, ast.LtE: a <= b, ast.Gt: a > b, ast.GtE: a >= b, ast.Eq: a == b, ast.NotEq: a != b}[type(op)]
         if (isinstance(a, bool) or z3.is_bool(a)) and (isinstance(b, bool) or z3.is_bool(b)) and isinstance(op, (ast.Eq, ast.NotEq)):
@@ -1449,6 +1496,8 @@ class Engine:
             if name in self.world and callable(self.world[name]) and self.in_spec:
                 args, kwargs = self.args(e)
                 return self.call_value(self.world[name], args, kwargs, e)
+            if name == 'cast' and len(e.args) == 2:
+                return self.eval(e.args[1])          # typing.cast(T, v) is v
             if name == 'isinstance':
                 t = e.args[1]
                 return self.isinstance(self.eval(e.args[0]),
@@ -1529,7 +1578,7 @@ class Engine:
                 raise Unsupported(f'{self.c.qual}: no contract for {recv.cls}.{name}')
             return self.call_contract_or_inline(cc, recv, args, kwargs)
         if isinstance(recv, TD) and name == 'total_seconds':
-            return zreal(recv.us) / 1000000
+            return Ratio(recv.us, 1000000)
         if isinstance(recv, DT) and name == 'replace':
             return self.dt_replace(recv, kwargs)
         if isinstance(recv, PyList) and name == 'append':
@@ -1539,6 +1588,12 @@ class Engine:
             item = args[0]
             if isinstance(item, Obj):
                 item.frozen = True
+                if isinstance(e.func.value, ast.Name):
+                    item.alias = ((self.lookup_scope(e.func.value.id) or self.env), e.func.value.id, recv.length)
+                elif isinstance(e.func.value, ast.Attribute):
+                    owner = self.eval(e.func.value.value)
+                    if isinstance(owner, Obj):
+                        item.alias = (owner, e.func.value.attr, recv.length)
                 # a field the list declares as plain int must not hold None when the record is appended
                 vals = dict(item.f)
                 for f, srt in recv.fields.items():
@@ -1721,10 +1776,16 @@ class Engine:
                 return int(v)
             if hasattr(v, 'to_int'):
                 return v.to_int(self, 10)
+            if isinstance(v, Ratio):
+                return v.trunc()
             z = zint(v)
             return trunc(z) if z.sort() == REAL else z
         if name == 'float':
             v = self.num(args[0], e)
+            if isinstance(v, Ratio):
+                return v
+            if z3.is_expr(v) and v.sort() == INT:
+                return Ratio(v, 1)
             if isinstance(v, (int, float)) and not isinstance(v, bool):
                 return float(v) if isinstance(v, float) else zreal(v)
             return zreal(v)
@@ -1770,6 +1831,14 @@ class Engine:
                 raise Unsupported('round(x, n)')
             if isinstance(v, int):
                 return v
+            if isinstance(v, Ratio):
+                # nearest integer r: |r*den - num| * 2 <= |den| (ties: either neighbour) - integer arithmetic
+                r = fresh('round')
+                n, d = zint(v.num), zint(v.den)
+                ad = z3.If(d >= 0, d, -d)
+                diff = r * d - n
+                self.assume(z3.And(2 * diff <= ad, -2 * diff <= ad))
+                return r
             z = zint(v)
             if z.sort() == INT:
                 return z
@@ -1825,6 +1894,8 @@ class Engine:
             v = self.num(args[0], e)
             if isinstance(v, int):
                 return v
+            if isinstance(v, Ratio):
+                return v.floor() if ftxt != 'math.ceil' else -Ratio(-zint(v.num), v.den).floor()
             z = zint(v)
             if z.sort() == INT:
                 return z
@@ -1842,6 +1913,15 @@ class Engine:
                     'minutes': 60 * 10**6, 'hours': 3600 * 10**6, 'weeks': 7 * 86400 * 10**6}
             for k, v in kw.items():
                 v = self.num(v, e)
+                if isinstance(v, Ratio):
+                    # nearest microsecond u of (num/den)*unit: |u*den - num*unit| * 2 <= |den|
+                    u = fresh('td_us')
+                    n, d = zint(v.num) * unit[k], zint(v.den)
+                    ad = z3.If(d >= 0, d, -d)
+                    diff = u * d - n
+                    self.assume(z3.And(2 * diff <= ad, -2 * diff <= ad))
+                    total = total + u
+                    continue
                 z = zint(v)
                 if z.sort() == REAL:
                     # timedelta rounds to the nearest microsecond (half-even over-approximated by "nearest")
